@@ -280,12 +280,18 @@ impl Sequence {
                 self.alignment_start() as Number,
                 self.alignment_end() as Number,
             ),
-            Strand::Negative => (
+            Strand::Negative => {
                 // NOTE: coordinates on the negative strand are stored as the
-                // reverse complement of the real sequence.
-                self.chromosome_size - self.alignment_start() as Number,
-                self.chromosome_size - self.alignment_end() as Number,
-            ),
+                // reverse complement of the real sequence. A position beyond
+                // the chromosome size has no reverse complement.
+                let start = self.chromosome_size.checked_sub(self.alignment_start());
+                let end = self.chromosome_size.checked_sub(self.alignment_end());
+
+                match (start, end) {
+                    (Some(start), Some(end)) => (start, end),
+                    _ => return Err(Error::Interval(interval::Error::OutOfBounds)),
+                }
+            }
         };
 
         let start = Coordinate::new(self.chromosome_name(), self.strand(), start_pos);
